@@ -10,55 +10,13 @@
    Moore / von Neumann grids of any dimension, hex grids, networks and Voronoi meshes share this
    model.  Capacity is per cell (VoronoiGrid sets it per cell).  Definitions only. *)
 From Coq Require Import ZArith List Bool.
-From Mesa Require Import Common.ListX Generated.Tables.
+From Mesa Require Import Common.ListX Common.CellState Generated.Tables.
+Export CS.
 Import ListNotations.
 Open Scope Z_scope.
 
-(* ---------------------------------------------------------------- environment (static) *)
-Inductive akind := KCell | KFixed | KGrid2D.   (* CellAgent | FixedAgent | Grid2DMovingAgent *)
-
-Record env := {
-  e_ncells : Z;                              (* cells are 0 .. ncells-1, in space._cells order *)
-  e_nagents : Z;                             (* agents are 1 .. nagents, created up front *)
-  e_cap : Z -> option Z;                     (* cell.capacity *)
-  e_conn : Z -> list Z -> option Z;          (* cell.connections.get(direction) *)
-  e_grid : bool;                             (* Grid subclass: 'empty' property layer, _try_random *)
-  e_kind : Z -> akind;
-  e_dirs : list (list Z * list Z)            (* Grid2DMovingAgent.DIRECTION_MAP: name codes -> vector *)
-}.
-
-(* ---------------------------------------------------------------- state *)
-Record state := {
-  content : Z -> list Z;      (* cell._agents, in list order *)
-  flag : Z -> bool;           (* cell.empty  (the grid's 'empty' layer at the cell's coordinate) *)
-  ptr : Z -> option Z;        (* agent._mesa_cell *)
-  reg : Z -> bool             (* agent is registered with the model *)
-}.
-
-Definition upd {A : Type} (f : Z -> A) (k : Z) (v : A) : Z -> A :=
-  fun x => if x =? k then v else f x.
-
-Definition set_content (s : state) (c : Z) (l : list Z) : state :=
-  {| content := upd (content s) c l; flag := flag s; ptr := ptr s; reg := reg s |}.
-Definition set_flag (s : state) (c : Z) (b : bool) : state :=
-  {| content := content s; flag := upd (flag s) c b; ptr := ptr s; reg := reg s |}.
-Definition set_ptr (s : state) (a : Z) (p : option Z) : state :=
-  {| content := content s; flag := flag s; ptr := upd (ptr s) a p; reg := reg s |}.
-Definition set_reg (s : state) (a : Z) (b : bool) : state :=
-  {| content := content s; flag := flag s; ptr := ptr s; reg := upd (reg s) a b |}.
-
 Definition init : state :=
   {| content := fun _ => []; flag := fun _ => true; ptr := fun _ => None; reg := fun _ => true |}.
-
-(* ---------------------------------------------------------------- errors / results *)
-Definition E_FULL : Z := 1.      (* Exception("ERROR: Cell is full") *)
-Definition E_FIXED : Z := 2.     (* ValueError("Cannot move agent in FixedCell") *)
-Definition E_NODIR : Z := 3.     (* ValueError("No cell in direction ...") *)
-Definition E_BADDIR : Z := 4.    (* ValueError("Invalid direction: ...") *)
-Definition E_ATTR : Z := 5.      (* AttributeError: 'NoneType' object has no attribute ... *)
-Definition E_NOTIN : Z := 6.     (* ValueError: list.remove(x): x not in list *)
-Definition E_NOEMPTY : Z := 7.   (* IndexError: random.choice of an empty list *)
-Definition E_LOOP : Z := 8.      (* rejection sampling on a space without an empty cell: never run *)
 
 Inductive result :=
 | Ok (r : list Z)
@@ -67,17 +25,6 @@ Inductive result :=
 | Illegal.            (* the recorded random outcome is not a legal one *)
 
 (* ---------------------------------------------------------------- cell.py *)
-Fixpoint memz (a : Z) (l : list Z) : bool :=
-  match l with [] => false | x :: t => (x =? a) || memz a t end.
-
-(* list.remove(a): first occurrence *)
-Fixpoint remove_first (a : Z) (l : list Z) : list Z :=
-  match l with [] => [] | x :: t => if x =? a then t else x :: remove_first a t end.
-
-Definition is_nil (l : list Z) : bool := match l with [] => true | _ => false end.
-
-Definition zlen (l : list Z) : Z := Z.of_nat (length l).
-
 (* is_empty: len(self.agents) == 0 *)
 Definition is_empty (s : state) (c : Z) : bool := is_nil (content s c).
 (* is_full: len(self.agents) == self.capacity *)
@@ -102,13 +49,6 @@ Definition remove_agent (s : state) (c a : Z) : state * option Z :=
   else (s, Some E_NOTIN).
 
 (* ---------------------------------------------------------------- cell_agent.py *)
-Definition opt_eqb (x y : option Z) : bool :=
-  match x, y with
-  | None, None => true
-  | Some a, Some b => a =? b
-  | _, _ => false
-  end.
-
 (* HasCell.cell setter (repaired):
      old_cell = self._mesa_cell
      if cell is old_cell: return
@@ -166,23 +106,6 @@ Definition move_relative (e : env) (s : state) (a : Z) (d : list Z) : state * re
       end
   end.
 
-(* str.lower on ASCII *)
-Definition lower (name : list Z) : list Z :=
-  map (fun ch => if (65 <=? ch) && (ch <=? 90) then ch + 32 else ch) name.
-
-Fixpoint zlist_eqb (a b : list Z) : bool :=
-  match a, b with
-  | [], [] => true
-  | x :: a', y :: b' => (x =? y) && zlist_eqb a' b'
-  | _, _ => false
-  end.
-
-Fixpoint lookup_dir (tbl : list (list Z * list Z)) (name : list Z) : option (list Z) :=
-  match tbl with
-  | [] => None
-  | (k, v) :: t => if zlist_eqb k name then Some v else lookup_dir t name
-  end.
-
 (* the path of Grid2DMovingAgent.move: `distance` times cell.connections.get(move_vector) *)
 Fixpoint walk (e : env) (v : list Z) (n : nat) (c : Z) : option Z :=
   match n with
@@ -237,8 +160,6 @@ Fixpoint remove_list (e : env) (s : state) (l : list Z) : state * result :=
   end.
 
 (* ---------------------------------------------------------------- discrete_space.py / grid.py *)
-Definition cells_dom (e : env) : list Z := zrange 0 (e_ncells e - 1).
-Definition agents_dom (e : env) : list Z := zrange 1 (e_nagents e).
 Definition in_cells (e : env) (c : Z) : bool := (0 <=? c) && (c <? e_ncells e).
 Definition in_agents (e : env) (a : Z) : bool := (1 <=? a) && (a <=? e_nagents e).
 
